@@ -1,6 +1,6 @@
 SPECIFICATION Spec
 CONSTANTS
   MaxN = 4
-  MaxOps = 6
+  MaxOps = 5
 INVARIANTS Refines RootLaws Halving Emit
 CHECK_DEADLOCK FALSE
